@@ -14,7 +14,7 @@ RULE = (
     "Unmatched instance-map pairs (both sides non-empty; 1-3-D; derived predictions: shifts, grow/shrink, splits into "
     "fragments, merges, spurious/deleted instances, also with roles exchanged so that one prediction spans several "
     "references; 1-D maps given as runs in which large instances are touched by tiny ones) x metric in {IoU, Dice, ASSD} x threshold (fixed grid, floats, or exactly the score of one of the "
-    "case's candidate pairs) x allow_many_to_one x a second threshold for the monotonicity relation. Exhaustive: all 1-D "
+    "case's candidate pairs) x allow_many_to_one x a second threshold for the monotonicity relation x fresh or reused objects (the pair object was matched before by a matcher with another metric, the matcher object has matched another pair of the same shape). Exhaustive: all 1-D "
     "pairs up to length 4 (quick) / 5 (thorough) over labels {0,1,2}. Oracle = validity predicates (function, "
     "injectivity, overlap, threshold, maximality, no displacement, monotonicity) + membership in the set of greedy "
     "outcomes of the reference model under every order of tied pairs (equality when that set is a singleton). "
